@@ -119,6 +119,16 @@ class World:
         op["_expect_body"] = body
         status = ps.get("status", 200)
         hdr = f"HTTP/1.1 {status} X\r\nX-Exchange: {n}\r\n"
+        if ps.get("upgrade_hdrs") == "426-ws":
+            # an ordinary (non-101) response that happens to carry upgrade headers: nothing was switched
+            hdr += "Connection: Upgrade\r\nUpgrade: websocket\r\n"
+        elif ps.get("upgrade_hdrs") == "101-h2c":
+            # the peer switched this connection to another protocol: HTTP/1.1 is over on it
+            hdr = f"HTTP/1.1 101 Switching\r\nX-Exchange: {n}\r\nConnection: Upgrade\r\nUpgrade: h2c\r\n"
+            peer.tainted = peer.tainted or f"response r{n} was 101 Switching Protocols (h2c)"
+            op["_expect_body"] = b""
+            peer.send((hdr + "\r\n").encode())
+            return
         if ps.get("announce_close") == "header":
             hdr += "Connection: close\r\n"
             peer.tainted = peer.tainted or f"response r{n} announced Connection: close"
@@ -371,9 +381,13 @@ def execute(case: dict) -> dict:
 
         for op, res in outcomes:
             n = res["n"]
+            if res.get("error") == "TimeoutError":
+                # every scripted response is complete (or its connection is closed by the peer): nothing here takes 50 s
+                raise Violation("exchange-hangs", f"request r{n} timed out although the peer answered (or closed): {op}")
             if "error" in res:
                 continue
-            if res.get("xch") != str(n) or res.get("status") != op["peer"].get("status", 200):
+            want_status = 101 if op["peer"].get("upgrade_hdrs") == "101-h2c" else op["peer"].get("status", 200)
+            if res.get("xch") != str(n) or res.get("status") != want_status:
                 raise Violation("foreign-response", f"request r{n} was answered with status={res.get('status')} X-Exchange={res.get('xch')!r}: bytes of another exchange")
             exp = res.get("expect_body")
             if "body" in res and exp is not None:
@@ -449,6 +463,9 @@ def cases(draw, narrow: bool):
             "later_ms": st.integers(0, 3),
             "truncate": st.sampled_from([None, None, None, 0, 3]),
             "close_after": st.sampled_from([False, False, False, True]),
+            # ("101-h2c" - a 101 to a protocol aiohttp does not speak - is implemented above but not generated: the suite pins
+            # keep-alive after a bare 101, test_keepalive_after_empty_body_status[101]; see DESIGN 6.2)
+            "upgrade_hdrs": st.sampled_from([None, None, None, None, None, "426-ws"]),
             "interim": st.sampled_from([None, None, None, None, {"codes": [103], "when": "same"}, {"codes": [102], "when": 0.01}, {"codes": [103, 103], "when": 0.5},
                                         {"codes": [100], "when": 0.01}]),
         }),
@@ -484,6 +501,18 @@ def cases(draw, narrow: bool):
                 o["head"] = False
             if ps["framing"] == "chunked" and ps.get("announce_close") == "http10":
                 ps["announce_close"] = None  # no chunked coding in HTTP/1.0
+            if ps.get("upgrade_hdrs") == "101-h2c":
+                for k_ in ("surplus", "truncate", "interim"):
+                    ps[k_] = None
+                ps["close_after"] = False
+                ps["bad_coding"] = False
+                ps["status"] = 200
+                if ps["framing"] == "eof":
+                    ps["framing"] = "cl"
+                o["head"] = False
+                o["expect"] = False
+            if ps.get("upgrade_hdrs") == "426-ws":
+                ps["status"] = 200  # a 200 with upgrade headers
             if o.get("expect"):
                 ps["interim"] = None  # (a real 100 Continue would make the client send the body the scripted peer does not read)
             if ps.get("interim") and (ps["truncate"] is not None or ps["framing"] == "eof" or ps["close_after"] or ps["surplus"] or ps.get("bad_coding")
